@@ -187,16 +187,17 @@ def axiom_audit(props_mods, extra_theorems=()):
 
 
 class LeanDriver:
-    """feeds JSON requests to `lake env lean --run Driver.lean` and returns the answers"""
+    """feeds JSON requests to `lake env lean --run mains/<Group>.lean` and returns the answers"""
 
-    def __init__(self):
+    def __init__(self, main="mains/Interleaved.lean"):
         self.n_lines = 0
+        self.main = main
 
     def run(self, requests, timeout=3000):
         if not requests:
             return []
         data = "\n".join(json.dumps(r, separators=(",", ":")) for r in requests) + "\n"
-        p = subprocess.run(["lake", "env", "lean", "--run", "Driver.lean"], cwd=LEAN_DIR, input=data,
+        p = subprocess.run(["lake", "env", "lean", "--run", self.main], cwd=LEAN_DIR, input=data,
                            capture_output=True, text=True, timeout=timeout)
         lines = [l for l in p.stdout.splitlines() if l.strip()]
         if p.returncode != 0 or len(lines) != len(requests):
@@ -277,7 +278,8 @@ class PropertyCheck:
     """Subclass per property. Override the class attributes and `correspond`, `search`, `replay`."""
     pid = "C00"
     props_modules = []          # Lean modules holding the property theorems
-    extra_build = []            # further lake targets (drivers)
+    extra_build = []            # further lake targets (driver module of the group)
+    driver_main = "mains/Interleaved.lean"   # lean file with `main` for the group's line protocol
     anchored = []               # repo files (relative) whose hashes go into the evidence
     assumptions = []
     trusted_extra = []
@@ -290,7 +292,7 @@ class PropertyCheck:
         self.tier = tier
         self.seed = seed
         self.rng = random.Random(f"{self.pid}:{seed}")
-        self.driver = LeanDriver()
+        self.driver = LeanDriver(self.driver_main)
         self.t0 = time.time()
 
     # ---- hooks -------------------------------------------------------------------------------
@@ -315,7 +317,7 @@ class PropertyCheck:
         broken = []      # names of obligations / correspondence cases that no longer check
         gen_info = self.generate()
         # 1. prove
-        targets = list(self.props_modules) + list(self.extra_build) + ["KDVerif.Driver.All"]
+        targets = list(self.props_modules) + list(self.extra_build)
         ok, out = lake_build(targets)
         build_err = None
         if not ok:
